@@ -420,6 +420,15 @@ func (e *Exec) loopWriteSet(fr *frame, h *ssa.BasicBlock) (map[string]bool, map[
 				}
 			}
 			if s, ok := in.(*ssa.Store); ok && fr.spec != nil {
+				if fa, ok := s.Addr.(*ssa.FieldAddr); ok {
+					pt := fa.X.Type().Underlying().(*types.Pointer).Elem()
+					key := "@field:" + typeShortName(pt) + "." + pt.Underlying().(*types.Struct).Field(fa.Field).Name()
+					for _, gs := range fr.spec.GhostSets {
+						if gs.OnStore == key {
+							ws["G$"+gs.Var] = true
+						}
+					}
+				}
 				if a, ok := s.Addr.(*ssa.Alloc); ok {
 					for _, gs := range fr.spec.GhostSets {
 						if gs.OnStore != "" && gs.OnStore == a.Comment {
@@ -1037,6 +1046,21 @@ func (e *Exec) contractCall(fr *frame, st *State, callee *ssa.Function, spec *Fu
 	for i, n := range names {
 		if i < len(targs) {
 			env.vars[n] = targs[i]
+		}
+	}
+	if callee != nil && len(callee.FreeVars) > 0 && len(names) >= len(callee.FreeVars) {
+		// a closure called directly: its captured variables are named by their
+		// content in its contract (the bindings are their addresses)
+		np := len(names) - len(callee.FreeVars)
+		for i, fvv := range callee.FreeVars {
+			if np+i < len(targs) && names[np+i] == fvv.Name() && targs[np+i].T != "" {
+				t := fvv.Type().Underlying().(*types.Pointer).Elem()
+				if env.addrs == nil {
+					env.addrs = map[string]Val{}
+				}
+				env.addrs[fvv.Name()] = Val{T: targs[np+i].T, S: sInt, GoT: fvv.Type()}
+				env.vars[fvv.Name()] = env.loadRef(targs[np+i].T, t)
+			}
 		}
 	}
 	short := shortName(key)
